@@ -4,7 +4,7 @@
 // routing rule) is stepped in lock-step with the real mailbox.DirHandler working on a tmpfs
 // directory. Every observable the package offers is compared with the model: return values of the
 // operations, the four folder listings (MIDs, bytes modulo the headers the mailbox adds itself,
-// unread flag), the four *Count methods, GetOutbound for the forwarder lists {}, {A}, {A,B} and
+// unread flag), the four *Count methods, GetOutbound for nine forwarder lists ({}, {A}, {A,B}, duplicates, other spellings, strangers, SMTP) and
 // GetInboundAnswer for every MID of the universe.
 package c10
 
@@ -84,8 +84,13 @@ var casts = [][3]variant{
 	{{"AcB", false}, {"cA", false}, {"AcS", true}},
 }
 
-var fwLists = [][]string{{}, {addrA}, {addrA, addrB}}
-var fwNames = []string{"cms", "p2p-A", "p2p-AB"}
+// forwarder lists as a remote may announce them (;FW is copied as received: duplicates, other
+// spellings of one address and addresses nobody writes to are all legal)
+var fwLists = [][]string{{}, {addrA}, {addrA, addrB}, {addrA, addrB, addrA}, {"n0aaa", addrA}, {"N0CCC"}, {"N0CCC", addrB}, {"N0BBB@winlink.org"}, {addrSMTP, addrSMTP}}
+var fwNames = []string{"cms", "p2p-A", "p2p-AB", "p2p-ABA", "p2p-aA", "p2p-C", "p2p-CB", "p2p-B@winlink", "p2p-SS"}
+
+// model-side normal form of the announced forwarder addresses, written out by hand
+var fwNorm = map[string]string{addrA: "N0AAA", addrB: "N0BBB", "n0aaa": "N0AAA", "N0CCC": "N0CCC", "N0BBB@winlink.org": "N0BBB", addrSMTP: "SMTP:user@example.com"}
 
 // operation kinds
 const (
@@ -236,7 +241,7 @@ func (m *model) outbound(fw []string) []string {
 			ok = !s.p2p
 		} else if len(s.rcpts) == 1 {
 			for _, f := range fw {
-				if strings.EqualFold(f, s.rcpts[0]) {
+				if strings.EqualFold(fwNorm[f], s.rcpts[0]) {
 					ok = true
 				}
 			}
@@ -272,6 +277,11 @@ type runner struct {
 	label    string
 	failed   bool
 	compared int // stored messages compared with the model (listings + GetOutbound results)
+	// loaded: message values listed from the inbox earlier, kept the way a user interface keeps the
+	// message it shows: every other read/unread marking is made on such a kept value instead of a
+	// freshly listed one (dropped whenever the inbox content may have changed)
+	loaded map[string]*fbb.Message
+	marks  int
 }
 
 func (r *runner) violate(key, format string, a ...any) {
@@ -314,6 +324,7 @@ func (r *runner) step(o op) {
 	case opDefer:
 		r.h.SetDeferred(mid)
 	case opInbound, opInbound2:
+		r.loaded = nil // the inbox content may change: a kept value would be stale
 		idx := []int{o.M}
 		if o.K == opInbound2 {
 			idx = append(idx, (o.M+1)%3)
@@ -329,20 +340,30 @@ func (r *runner) step(o op) {
 		}
 	case opUnread, opRead:
 		// the package function needs a message that carries X-FilePath, i.e. one listed from the folder
-		list, err := r.h.Inbox()
-		if err != nil {
-			r.violate("listing:inbox:error", "Inbox() = %v", err)
-			break
-		}
-		var target *fbb.Message
-		for _, m := range list {
-			if m.MID() == mid {
-				target = m
+		r.marks++
+		target := r.loaded[mid]
+		if target != nil && r.marks%2 == 0 {
+			r.o.Count("setunread_on_kept_message_value", 1)
+		} else {
+			list, err := r.h.Inbox()
+			if err != nil {
+				r.violate("listing:inbox:error", "Inbox() = %v", err)
+				break
 			}
-		}
-		if target == nil {
-			r.violate("listing:inbox:set", "Inbox() does not list %s which the model holds", mid)
-			break
+			target = nil
+			for _, m := range list {
+				if m.MID() == mid {
+					target = m
+				}
+			}
+			if target == nil {
+				r.violate("listing:inbox:set", "Inbox() does not list %s which the model holds", mid)
+				break
+			}
+			if r.loaded == nil {
+				r.loaded = map[string]*fbb.Message{}
+			}
+			r.loaded[mid] = target
 		}
 		if err := mailbox.SetUnread(target, o.K == opUnread); err != nil {
 			r.violate("return:SetUnread", "SetUnread(%s,%v) = %v, model: nil", mid, o.K == opUnread, err)
